@@ -234,7 +234,7 @@ def run(tier, seed):
     run.extra_cov["named_quantities"] = len(reg.quantities)
     bases = sorted(reg.base_units)
     extra = set()
-    nrand = 150 if tier == "quick" else 10000
+    nrand = 150 if tier == "quick" else 100000
     while len(extra) < nrand:
         d = {}
         for b in rng.sample(bases, rng.randrange(1, 4)):
